@@ -2,12 +2,14 @@ import os
 
 from typing import Any, Optional
 
+from antlr4 import CommonTokenStream, FileStream
 from afmparser import AFMParser
-from afmparser import get_tree
+from afmparser.AFMLexer import AFMLexer
 
 from flamapy.core.exceptions import FlamaException
 from flamapy.core.transformations import TextToModel
 from flamapy.core.models.ast import AST, Node, ASTOperation
+from flamapy.metamodels.fm_metamodel.transformations.uvl_reader import CustomErrorListener
 from flamapy.metamodels.fm_metamodel.models import (
     Constraint,
     Domain,
@@ -31,7 +33,17 @@ class AFMReader(TextToModel):
 
     def set_parse_tree(self) -> None:
         absolute_path = os.path.abspath(self.path)
-        self.parse_tree = get_tree(absolute_path)
+        error_listener = CustomErrorListener()
+        lexer = AFMLexer(FileStream(absolute_path, encoding='utf-8'))
+        lexer.removeErrorListeners()
+        lexer.addErrorListener(error_listener)
+        parser = AFMParser(CommonTokenStream(lexer))
+        parser.removeErrorListeners()
+        parser.addErrorListener(error_listener)
+        self.parse_tree = parser.feature_model()
+        if error_listener.errors:
+            raise FlamaException("Parsing failed due to syntax errors: "
+                                 + "; ".join(error_listener.errors))
 
     def transform(self) -> FeatureModel:
         self.set_parse_tree()
